@@ -30,12 +30,13 @@ def templated_tiles(sf, n):
 
 
 # ------------------------------------------------------------------ contracts
-@contract("sqlfluff.core.templaters.base:TemplatedFile.__init__", PROP)
+@contract("sqlfluff.core.templaters.base:TemplatedFile.__init__", (PROP, "C31"))
 class tf_init:
     types = {"self": TemplatedFile, "source_str": StrA, "fname": Text, "templated_str": TOpt(StrA),
              "sliced_file": TOpt(TList(TemplatedFileSlice)), "raw_sliced": TOpt(TList(RawFileSlice)),
              "pos": INT, "previous_slice": TOpt(TemplatedFileSlice), "tfs": TOpt(TemplatedFileSlice)}
     raises = {"ValueError": None, "AssertionError": None, "SQLFluffSkipFile": None}
+    opts = {"alphabet": "a\n \r\x0c\u2028"}
 
     def ensures(self, source_str, fname, templated_str, sliced_file, raw_sliced, result):
         return (
